@@ -50,6 +50,7 @@ type Hier struct {
 	Ok     []bool       `json:"ok"`
 	Mro    [][]int      `json:"mro"`
 	IsInst [][]InstCell `json:"isinst"`
+	Ctor   [][]int      `json:"ctor"` // ctor[0]: odd classes define __init__, ctor[1]: even ones; per class the class whose __init__ must run (0: none)
 }
 
 // ---------------------------------------------------------------------------------------------
@@ -110,6 +111,10 @@ const helpersA = `def order_of(o, ks):
         c = ks[v]
         c.x = v
     return order
+def mkinit(tag):
+    def __init__(self):
+        self.who = tag
+    return __init__
 def insts_of(o, ks, names):
     out = []
     for nm in names:
@@ -140,7 +145,11 @@ func progA(h *Hier) string {
 		fmt.Fprintf(&b, "        x = '%d'\nexcept TypeError:\n    ok = 0\n", c)
 		fmt.Fprintf(&b, "if ok:\n    ks['%d'] = K%d\n    names.append('%d')\n    res.append(['mro', order_of(K%d(), ks)])\nelse:\n    res.append(['TypeError'])\n", c, c, c, c)
 	}
-	b.WriteString("for nm in names:\n    res.append(['isinst', nm, insts_of(ks[nm](), ks, names)])\nprint(res)\n")
+	b.WriteString("for nm in names:\n    res.append(['isinst', nm, insts_of(ks[nm](), ks, names)])\n")
+	// construction: __init__ defined by the classes of one parity; which one runs when each class is called
+	b.WriteString("for par in (1, 0):\n    for nm in names:\n        if int(nm) % 2 == par:\n            ks[nm].__init__ = mkinit(nm)\n")
+	b.WriteString("    row = []\n    for nm in names:\n        o = ks[nm]()\n        try:\n            row.append(o.who)\n        except AttributeError:\n            row.append('0')\n")
+	b.WriteString("    res.append(['ctor', row])\n    for nm in names:\n        if int(nm) % 2 == par:\n            del ks[nm].__init__\nprint(res)\n")
 	return b.String()
 }
 
@@ -420,9 +429,26 @@ func (ck *checker) checkA(h *Hier, res []interface{}, why, prog string) {
 			ck.rep.Violation("C16|Mro|lookup order through an instance|observed=another order", detail(fmt.Sprintf("MRO of K%d, expected %v", c, want), e))
 		}
 	}
-	if len(res) != n+len(created) {
-		ck.rep.Violation("C16|ClassStatement|program did not complete|observed=short output", detail("isinstance rows missing", res))
+	if len(res) != n+len(created)+2 {
+		ck.rep.Violation("C16|ClassStatement|program did not complete|observed=short output", detail("isinstance or construction rows missing", res))
 		return
+	}
+	for k := 0; k < 2 && len(h.Ctor) == 2; k++ {
+		e, _ := res[n+len(created)+k].([]interface{})
+		var got []string
+		if len(e) == 2 {
+			got = strs(e[1])
+		}
+		for j, c := range created {
+			atomic.AddInt64(&ck.obs, 1)
+			ck.part("Construct|__init__ along the MRO")
+			want := fmt.Sprint(h.Ctor[k][c-1])
+			if j >= len(got) || got[j] != want {
+				ck.rep.Violation("C16|Construct|first __init__ along the MRO|observed=another class's __init__ (or none)",
+					detail(fmt.Sprintf("K%d() with __init__ in the classes of parity %d: expected the __init__ of K%s", c, 1-k, want), e))
+				break
+			}
+		}
 	}
 	for i, c := range created {
 		e, _ := res[n+i].([]interface{})
@@ -710,7 +736,7 @@ func main() {
 		"the vetted scaffolding of the generated programs works (lists of str, try/except AttributeError/TypeError, lambda, `is` on classes and instances, isinstance(x, str) for the exact type str)",
 		"the MRO is observed only through lookups (gpython exposes neither __mro__ nor issubclass); object is never observed as a member of an MRO",
 	}
-	for _, p := range []string{"ClassStatement|accepted", "ClassStatement|rejected", "IsInstance|class=ancestor", "IsInstance|class=unrelated",
+	for _, p := range []string{"ClassStatement|accepted", "ClassStatement|rejected", "Construct|__init__ along the MRO", "IsInstance|class=ancestor", "IsInstance|class=unrelated",
 		"ReadI|found=instance|kind=plain", "ReadI|found=base|kind=func", "ReadI|found=own|kind=classmethod", "ReadC|found=base|kind=plain", "ReadC|found=own|kind=staticmethod",
 		"WriteI", "WriteC", "DelI|present", "DelI|absent", "DelC|own", "DelC|inherited only"} {
 		if ck.parts[p] == 0 {
